@@ -18,7 +18,8 @@ reg(Prop(
          'forward (mutable and const) and backward and compared with the model; every usable signal is called and the logged callback '
          'sequence, the folded result and the per-connection unregister counters are compared. distinct = hash of the history text.'
          ' By-value class-type arguments: signals taking std::string / shared_ptr<int> / a heap-backed number by value, callbacks that move their parameter on, lvalue and rvalue call arguments; every callback sees the call\'s argument, the result is the left fold.'
-         ' Callbacks with an inner call counter (the signal invokes the callback object the connection owns, not a copy).',
+         ' Callbacks with an inner call counter (the signal invokes the callback object the connection owns, not a copy).'
+         ' Scopes holding 1-3 connections of an unregister signal that are left by an exception (and normally, as the control): unregister callbacks ran exactly once, membership afterwards.',
     assumptions=COMMON_ASSUMPTIONS + [
         'model: a list move assignment drops the target\'s previous members from every list; elements of a destroyed list are in no list; moving from an unlinked element yields an unlinked element',
         'side condition: a moved-from signal object is only destroyed or assigned to (its combiner is moved-from)'],
